@@ -97,6 +97,7 @@ type Session struct {
 	FailAt     int // -1: never; k: step k fails once
 	FailErr    syscall.Errno
 	FailShort  bool // a failing write first writes half of its data
+	WriteSplit int  // >1: a Write of at least that many bytes is performed as WriteSplit consecutive write steps
 	Crashed    bool
 	nextFile   int
 
@@ -275,6 +276,24 @@ func (f *File) Write(p []byte) (int, error) {
 	if f.s == nil {
 		return f.f.Write(p)
 	}
+	if k := f.s.WriteSplit; k > 1 && len(p) >= k {
+		// the copy loop of a large entry: several write calls, each a step (and a scheduling point).
+		// The chunks alias the caller's buffer, exactly like consecutive writes of one io.Copy.
+		total := 0
+		for i := 0; i < k; i++ {
+			lo, hi := len(p)*i/k, len(p)*(i+1)/k
+			n, err := f.write1(p[lo:hi])
+			total += n
+			if err != nil {
+				return total, err
+			}
+		}
+		return total, nil
+	}
+	return f.write1(p)
+}
+
+func (f *File) write1(p []byte) (int, error) {
 	return f.s.do("write", f.rel, "", len(p), f.id, true,
 		func() (int, error) { return f.f.Write(p) },
 		func() { f.f.Write(p[:len(p)/2]) })
